@@ -309,6 +309,10 @@ impl CrashSpec for ZipOffsetHist {
             tier.pick(vec![512], vec![512, 64])
         }
     }
+    fn lost_sector_images(&self) -> bool {
+        // record checksums (CRC-32C) are the format's promise to notice a block that was never written
+        self.checksum >= 2 && !self.big
+    }
     /// With record checksums (level >= 2) a damaged record is detected when it is read: `get` returns an error.  That is
     /// a refusal at record granularity; every record that IS served must be byte-identical and the count must agree.
     fn same_state(&self, got: &[u8], sync: &[u8]) -> bool {
